@@ -958,7 +958,11 @@ func (s *sim) shutdown(maxSleep time.Duration) {
 	// 2. after the cancel: every new PushTask is refused
 	s.directorPushing.Store(true)
 	for lane := 0; lane < s.p.LaneSize; lane++ {
-		s.push(s.newTask(TaskSpec{Kind: TInstant}, lane), false)
+		spec := TaskSpec{Kind: TInstant}
+		if lane%3 == 1 {
+			spec = TaskSpec{Kind: TNil} // whatever is pushed after the cancel - the nil Task too - is refused with the context's error
+		}
+		s.push(s.newTask(spec, lane), false)
 	}
 	s.directorPushing.Store(false)
 	// 3. Wait returns once the running tasks have returned
@@ -978,7 +982,11 @@ func (s *sim) shutdown(maxSleep time.Duration) {
 		go func(h int) {
 			defer s.producers.Done()
 			for k := 0; k < 40; k++ {
-				t := s.newTask(TaskSpec{Kind: TInstant}, (h+k)%s.p.LaneSize)
+				spec := TaskSpec{Kind: TInstant}
+				if k%5 == 3 {
+					spec = TaskSpec{Kind: TNil}
+				}
+				t := s.newTask(spec, (h+k)%s.p.LaneSize)
 				s.push(t, true)
 				if k%8 == 7 {
 					runtime.Gosched()
